@@ -149,7 +149,8 @@ def stepCore (st : Option S) (line : String) : Option S × String :=
       if ef == "-" && (field? fs "cachehit") == some "1" then (st, "unpredicted") else
       if k == 0 || k > 10000 then (st, "rejected") else
       let (s', res) := Knn.knnStep dg s hot cold k
-      let hotNonEmpty := !(Knn.filterHot dg s hot).2.isEmpty
+      let sv := Knn.annotate dg s hot
+      let hotNonEmpty := !(Knn.widenF (sv.length + 1) sv (2 * k) (2 * k)).2.isEmpty
       let path := match hotNonEmpty, !cold.isEmpty, !s.cold.isEmpty with
         | true, true, _ => "HotAndCold"
         | true, false, _ => "HotTierOnly"
